@@ -63,6 +63,20 @@ def check_sd(H, b, ctx, replay):
             problems.append("decode(encode(decode(b))) != decode(b)")
     except Exception as exc:
         problems.append(f"re-encoded bytes do not decode: {exc!r}")
+    # the encoder's output handed to the decoder as it is (whatever buffer type build() returns), and the value decoded
+    # from it encoded twice: encoding must not change the value it encodes
+    try:
+        raw = v.build()
+        w, wrest = H.SOMEIPSDHeader.parse(raw)
+        e1 = bytes(w.build())
+        e2 = bytes(w.build())
+        ctx.count("sd_repeated_encodes")
+        if e1 != b2 or e2 != b2 or wrest:
+            problems.append("encoding the value decoded from the encoder's own buffer is not repeatable")
+        elif H.SOMEIPSDHeader.parse(e2)[0] != v:
+            problems.append("value decoded from the encoder's own buffer differs after being encoded")
+    except Exception as exc:
+        problems.append(f"encoder's own buffer does not decode / re-encode: {exc!r}")
     # the resolved cycle
     try:
         r1 = v.resolve_options()
